@@ -123,7 +123,7 @@ impl Gen {
             let ty = match self.rng.below(10) {
                 0..=2 => CT::Int16,
                 3..=4 => CT::Int32,
-                _ => CT::Str(*self.rng.pick(&[0usize, 0, 16, 32, 64, 72, 255, 255, 20, 12])),
+                _ => CT::Str(*self.rng.pick(&[0usize, 0, 16, 32, 64, 72, 255, 255, 20, 12, 1, 2, 4])),
             };
             let mut c = ColDef::new(&name, ty);
             c.key = key;
@@ -131,11 +131,16 @@ impl Gen {
             match ty {
                 CT::Str(w) => {
                     c.localizable = self.rng.chance(1, 10);
-                    if self.rng.chance(4, 10) {
+                    if self.rng.chance(4, 10) && (w == 0 || w >= 12) {
                         let cat = *self.rng.pick(&STR_CATEGORIES);
                         // GUIDs need 38 characters
                         if !(cat == "GUID" && w != 0 && w < 38) {
                             c.category = Some(cat);
+                        }
+                        // a category AND an enumeration on one column (values that satisfy both)
+                        if !key && matches!(cat, "Identifier" | "Text" | "LowerCase") && (w == 0 || w >= 6) && self.rng.chance(1, 4) {
+                            let k = 2 + self.rng.usize(3);
+                            c.enums = (0..k).map(|j| format!("e{}v{}", i, j)).collect();
                         }
                     } else if self.rng.chance(1, 8) && !key {
                         let k = 2 + self.rng.usize(3);
